@@ -8,10 +8,14 @@
 //     message level x command form x PRIOR HISTORY on the same MainLoop (nothing / the message was just
 //     seen on the bus / seen longer ago than the default max age / an authorised other client just read
 //     or wrote it / the same client was refused just before); plus the listing forms (without and with
-//     cached data on every message) and the data sink filter.
+//     cached data on every message) and the data sink filter.  Further dimensions on reduced form sets: how the
+//     message got its level (inline circuit#level, level column, four kinds of default rows), forms crossed
+//     with their options and the passive message by name, wrong secrets related to the right one, case variants
+//     of level names, two conditional variants of one name with different levels.
 // Reference RefLevels is written from the property statement (token membership), not from
 // message.cpp.
 #include <algorithm>
+#include <deque>
 #include <set>
 #include "mainloop_fixture.h"
 
@@ -50,6 +54,7 @@ static bool refSelfTest() {
   return true;
 }
 
+
 // ---- domain -----------------------------------------------------------------------------------
 static vector<string> namesOver(const string& alpha, size_t maxLen) {
   vector<string> out, cur = {""};
@@ -80,17 +85,24 @@ struct Domain {
   vector<string> levels;    // message levels incl. "" (index+1 = message number)
   vector<string> names;     // names for checkLevel lists
   vector<string> e2eNames;  // names for ACL lists
+  vector<string> baseNames; // the lower case part of e2eNames (fully crossed in quick)
 };
+// level names: all strings over {a,b} (thorough {a,b,c}) up to a length, plus case variants of them (a level
+// differs from its upper / mixed case spelling)
 static Domain domainOf(const string& set) {
   Domain d;
   d.set = set;
   if (set == "t") {
     d.names = namesOver("abc", 3);
-    d.e2eNames = namesOver("abc", 2);
+    d.baseNames = namesOver("abc", 2);
+    for (const char* n : {"A", "aA", "Ab"}) d.names.push_back(n);
   } else {
     d.names = namesOver("ab", 2);
-    d.e2eNames = d.names;
+    d.baseNames = d.names;
+    for (const char* n : {"A", "aA"}) d.names.push_back(n);
   }
+  d.e2eNames = d.baseNames;
+  for (const char* n : {"A", "aA"}) d.e2eNames.push_back(n);
   d.levels.push_back("");
   d.levels.insert(d.levels.end(), d.names.begin(), d.names.end());
   return d;
@@ -98,45 +110,129 @@ static Domain domainOf(const string& set) {
 
 // ---- world ------------------------------------------------------------------------------------
 static string two(unsigned v) { char b[8]; snprintf(b, sizeof(b), "%02x", v); return b; }
-static string msgName(char kind, size_t idx) { char b[16]; snprintf(b, sizeof(b), "%c%02u", kind, (unsigned)(idx + 1)); return b; }
-static string defsFor(const Domain& d) {
-  std::ostringstream o;
-  o << "# type,circuit,name,comment,qq,zz,pbsb,id,fields...\n";
-  for (size_t i = 0; i < d.levels.size(); i++) {
-    string circ = d.levels[i].empty() ? "c" : "c#" + d.levels[i];
-    o << "r," << circ << "," << msgName('m', i) << ",,,08,b509,0d" << two(i + 1) << ",v,,UCH\n";
-    o << "w," << circ << "," << msgName('w', i) << ",,,08,b509,0e" << two(i + 1) << ",v,,UCH\n";
-    o << "u," << circ << "," << msgName('p', i) << ",,,08,b509,0f" << two(i + 1) << ",v,,UCH\n";
-  }
-  return o.str();
-}
+static string num2(size_t idx) { char b[8]; snprintf(b, sizeof(b), "%02u", (unsigned)(idx + 1)); return b; }
+// how a message gets its level ("level source"): the reference only says "this message carries level L"
+struct Source { const char* name; const char* circ; const char* sb; const char* tag; };
+static const Source SOURCES[] = {
+  {"inline", "c", "09", ""},            // r,c#L,NAME,...            (circuit#level in the message row)
+  {"column", "k", "0a", "k"},           // own header with a level column
+  {"defrow", "d", "0b", "d"},           // file 08.d.csv: *r,#L default row on top of the file name circuit
+  {"defcirc", "f", "0c", "f"},          // file 08.e.csv: *r,f#L default row naming another circuit
+  {"defsuffix", "g.2", "0d", "g"},      // file 08.g.2.csv: *r,#L default row, circuit suffix from the file name
+  {"defcircsuffix", "h.2", "0e", "h"},  // file 08.g.2.csv: *r,h#L default row, suffix inserted before the level
+};
+static const size_t NSRC = sizeof(SOURCES) / sizeof(SOURCES[0]);
+struct Tgt {
+  size_t src = 0, mi = 0;
+  string level, circ, rname, wname, pname, sb;
+  Message* rm = nullptr; Message* wm = nullptr; Message* pm = nullptr;
+  string ii() const { return two(mi + 1); }
+  string rTel(const string& qq = "31") const { return qq + "08b5" + sb + "020d" + ii(); }
+  string wTel(const string& val, const string& qq = "31") const { return qq + "08b5" + sb + "030e" + ii() + val; }
+  string pTel(const string& qq = "10") const { return qq + "08b5" + sb + "020f" + ii(); }
+};
+static string lvlSuffix(const string& l) { return l.empty() ? "" : "#" + l; }
 struct Ctx {
   Domain d;
   World* w = nullptr;
-  vector<Message*> rd, wr, pv;
+  vector<vector<Tgt>> tg;   // [source][level index]
+  vector<Message*> all;
+  Message* sel = nullptr;   // the message the two conditions of the "dup" names look at
+  vector<Message*> dupOn, dupOff;
   string curAcl;  // key of the ACL the current MainLoop was built with
 };
+static void loadFile(World* w, const string& filename, const string& content) {
+  std::istringstream in(content);
+  string err;
+  time_t now = g_now;
+  result_t r = w->messages->readFromStream(&in, filename, now, false, nullptr, &err);
+  if (r != RESULT_OK) { fprintf(stderr, "fixture: %s did not load: %s\n", filename.c_str(), err.c_str()); exit(3); }
+}
 static Ctx* makeCtx(const string& set) {
   Ctx* c = new Ctx();
   c->d = domainOf(set);
+  const vector<string>& L = c->d.levels;
+  size_t n = L.size();
+  c->tg.resize(NSRC);
+  for (size_t s = 0; s < NSRC; s++) for (size_t i = 0; i < n; i++) {
+    Tgt t;
+    t.src = s; t.mi = i; t.level = L[i]; t.circ = SOURCES[s].circ; t.sb = SOURCES[s].sb;
+    t.rname = "m" + string(SOURCES[s].tag) + num2(i); t.wname = "w" + string(SOURCES[s].tag) + num2(i); t.pname = "p" + string(SOURCES[s].tag) + num2(i);
+    c->tg[s].push_back(t);
+  }
+  // inline source (+ the selector and the conditional "dup" names: variant [on] carries level i, variant [off]
+  // level i+1, so that the available variant and the first stored one differ in level)
+  std::ostringstream o;
+  o << "# type,circuit,name,comment,qq,zz,pbsb,id,fields...\n";
+  for (auto& t : c->tg[0]) {
+    o << "r,c" << lvlSuffix(t.level) << "," << t.rname << ",,,08,b509,0d" << t.ii() << ",v,,UCH\n";
+    o << "w,c" << lvlSuffix(t.level) << "," << t.wname << ",,,08,b509,0e" << t.ii() << ",v,,UCH\n";
+    o << "u,c" << lvlSuffix(t.level) << "," << t.pname << ",,,08,b509,0f" << t.ii() << ",v,,UCH\n";
+  }
+  o << "r,c,sel,,,08,b509,0d70,v,,UCH\n*[on],c,sel,,v,,1\n*[off],c,sel,,v,,0\n";
+  for (size_t i = 0; i < n; i++) {
+    o << "[on]r,c" << lvlSuffix(L[i]) << ",d" << num2(i) << ",,,08,b509,10" << two(i + 1) << ",v,,UCH\n";
+    o << "[off]r,c" << lvlSuffix(L[(i + 1) % n]) << ",d" << num2(i) << ",,,08,b509,11" << two(i + 1) << ",v,,UCH\n";
+  }
   WorldConfig wc;
-  wc.csv = defsFor(c->d);
+  wc.csv = o.str();
   c->w = new World(wc);
   if (c->w->loadResult != RESULT_OK) { fprintf(stderr, "definitions did not load: %s\n", c->w->loadError.c_str()); exit(3); }
-  for (size_t i = 0; i < c->d.levels.size(); i++) {
-    Message* r = c->w->messages->find("c", msgName('m', i), "*", false);
-    Message* w = c->w->messages->find("c", msgName('w', i), "*", true);
-    Message* p = c->w->messages->find("c", msgName('p', i), "*", false, true);
-    if (!r || !w || !p || r->getLevel() != c->d.levels[i] || w->getLevel() != c->d.levels[i] || p->getLevel() != c->d.levels[i]) {
-      fprintf(stderr, "fixture: message %zu not set up as intended\n", i);
-      exit(3);
+  // column source
+  {
+    std::ostringstream f;
+    f << "type,circuit,level,name,comment,qq,zz,pbsb,id,*name,part,type,divisor/values,unit,comment\n";
+    for (auto& t : c->tg[1]) for (const char* k : {"r", "w", "u"}) {
+      f << k << ",k," << t.level << "," << (k[0] == 'r' ? t.rname : k[0] == 'w' ? t.wname : t.pname) << ",,,08,b50a,0" << (k[0] == 'r' ? "d" : k[0] == 'w' ? "e" : "f") << t.ii() << ",v,,UCH\n";
     }
-    c->rd.push_back(r); c->wr.push_back(w); c->pv.push_back(p);
+    loadFile(c->w, "col.csv", f.str());
+  }
+  // default row sources: a default row applies to the message rows that follow it
+  auto defFile = [&](const string& filename, size_t s, const string& circCol) {
+    std::ostringstream f;
+    f << "# type,circuit,name,comment,qq,zz,pbsb,id,fields...\n";
+    for (auto& t : c->tg[s]) {
+      string cc = circCol + lvlSuffix(t.level);
+      for (const char* k : {"r", "w", "u"}) f << "*" << k << "," << cc << ",,,,,b5" << t.sb << "\n";
+      f << "r,," << t.rname << ",,,,,0d" << t.ii() << ",v,,UCH\n";
+      f << "w,," << t.wname << ",,,,,0e" << t.ii() << ",v,,UCH\n";
+      f << "u,," << t.pname << ",,,,,0f" << t.ii() << ",v,,UCH\n";
+    }
+    loadFile(c->w, filename, f.str());
+  };
+  defFile("08.d.csv", 2, "");
+  defFile("08.e.csv", 3, "f");
+  defFile("08.g.2.csv", 4, "");
+  defFile("08.g.2.csv", 5, "h");
+  c->w->scanHelper->executeInstructions(c->w->busHandler);
+  for (size_t s = 0; s < NSRC; s++) for (auto& t : c->tg[s]) {
+    t.rm = c->w->messages->find(t.circ, t.rname, "*", false);
+    t.wm = c->w->messages->find(t.circ, t.wname, "*", true);
+    t.pm = c->w->messages->find(t.circ, t.pname, "*", false, true);
+    if (!t.rm || !t.wm || !t.pm) { fprintf(stderr, "fixture: messages of source %s level index %zu not found in circuit %s\n", SOURCES[s].name, t.mi, t.circ.c_str()); exit(3); }
+    // (which level the message got is NOT asserted here: that is what the check judges by behaviour)
+    c->all.push_back(t.rm); c->all.push_back(t.wm); c->all.push_back(t.pm);
+  }
+  c->sel = c->w->messages->find("c", "sel", "*", false);
+  if (!c->sel) { fprintf(stderr, "fixture: sel not found\n"); exit(3); }
+  c->all.push_back(c->sel);
+  {
+    deque<Message*> ms;
+    c->w->messages->findAll("c", "", "*", false, true, false, false, true, false, 0, 0, false, &ms);
+    c->dupOn.resize(n); c->dupOff.resize(n);
+    for (Message* m : ms) {
+      string nm = m->getName();
+      if (nm.size() == 3 && nm[0] == 'd') {
+        size_t i = strtoul(nm.c_str() + 1, nullptr, 10) - 1;
+        if (i < n) { (m->m_id[2] == 0x10 ? c->dupOn : c->dupOff)[i] = m; c->all.push_back(m); }
+      }
+    }
+    for (size_t i = 0; i < n; i++) if (!c->dupOn[i] || !c->dupOff[i]) { fprintf(stderr, "fixture: conditional variants %zu not found\n", i); exit(3); }
   }
   return c;
 }
 static void resetState(Ctx* c) {
-  for (auto* v : {&c->rd, &c->wr, &c->pv}) for (Message* m : *v) {
+  for (Message* m : c->all) {
     m->m_lastUpdateTime = 0; m->m_lastChangeTime = 0; m->m_pollPriority = 0;
     m->m_lastMasterData.clear(); m->m_lastSlaveData.clear();
   }
@@ -146,6 +242,8 @@ static void resetState(Ctx* c) {
 }
 
 // ---- ACL --------------------------------------------------------------------------------------
+// user u (secret "sE") is the user of the ACL; a second user v (secret "t2", all levels) only serves as the
+// owner of another secret; z is a user name without entry
 struct Acl {
   string dsrc;  // acl | opt | none
   string D, U;  // ';' separated lists
@@ -157,7 +255,8 @@ static void applyAcl(Ctx* c, const Acl& a) {
   std::ostringstream f;
   f << "# name,secret,level...\n";
   if (a.dsrc == "acl") f << "*,," << withSep(a.D, ';', ',') << "\n";
-  f << "u,s," << withSep(a.U, ';', ',') << "\n";
+  f << "u,sE," << withSep(a.U, ';', ',') << "\n";
+  f << "v,t2,*\n";
   c->w->newLoop(a.dsrc == "opt" ? withSep(a.D, ';', ',') : "", true, f.str());
 }
 static string effDefault(const Acl& a) { return a.dsrc == "none" ? "" : a.D; }
@@ -168,135 +267,176 @@ static bool inPollQueue(Ctx* c, Message* m) {
   for (Message* x : c->w->messages->m_pollMessages.c) if (x == m) return true;
   return false;
 }
+// authentication states: only "ok" authenticates.  The wrong secrets are unrelated to the right one (bad), a
+// proper prefix, an extension, a case variant, the empty string, and the secret of another user; crossv is the
+// other user's name with u's secret
 static const char* AUTHS[] = {"none", "ok", "bad", "nosecret", "unknown"};
+static const char* AUTHS2[] = {"prefix", "ext", "case", "empty", "cross", "crossv"};
 static const char* FORMS[] = {"readname", "readcirc", "readforce", "readmaxage", "readhex", "readhexforce", "readpoll",
                               "writecirc", "writehex", "httpname", "httpcached", "httpmaxage", "httppoll",
                               "findname", "finddata", "findhex"};
+// forms crossed with the options their usage text allows, and the passive message addressed by name
+static const char* OPTFORMS[] = {"readcirc_s", "readcirc_d", "readcirc_v", "readcirc_n", "readcirc_field", "readname_s",
+                                 "readhex_s", "readhex_c", "readhex_sc", "writecirc_s", "writecirc_d", "writehex_s",
+                                 "writehex_c", "writehex_sc", "readpassive", "readpassive_c", "readpassive_m", "httppassive"};
+// forms used for the other level sources and for the additional authentication states
+static const char* SRCFORMS[] = {"readcirc", "readforce", "readhex", "writecirc", "writehex", "httpcached", "finddata"};
+static const char* AUTH2FORMS[] = {"readforce", "writecirc", "httpname", "finddata"};
 // what happened to the addressed message on the same MainLoop before the judged request
 static const char* HISTS[] = {"none", "fresh", "stale", "authread", "denied"};
+static const char* HISTS2[] = {"none", "fresh"};
 static const char* SETFORMS[] = {"findall", "findw", "finddata", "httpall", "sink"};
 static const char* SETHISTS[] = {"none", "fresh"};
 
 static string authQuery(const string& auth) {
-  if (auth == "ok") return "user=u&secret=s";
+  if (auth == "ok") return "user=u&secret=sE";
   if (auth == "bad") return "user=u&secret=x";
   if (auth == "nosecret") return "user=u";
-  if (auth == "unknown") return "user=v&secret=s";
+  if (auth == "unknown") return "user=z&secret=sE";
+  if (auth == "prefix") return "user=u&secret=s";
+  if (auth == "ext") return "user=u&secret=sEx";
+  if (auth == "case") return "user=u&secret=se";
+  if (auth == "empty") return "user=u&secret=";
+  if (auth == "cross") return "user=u&secret=t2";
+  if (auth == "crossv") return "user=v&secret=sE";
   return "";
 }
 // performs the TCP authentication step; returns false if the observed user is not the expected one
 static bool tcpAuth(Ctx* c, const string& auth, string* user, string* log) {
   *user = "";
   string line;
-  if (auth == "ok") line = "auth u s";
+  if (auth == "ok") line = "auth u sE";
   else if (auth == "bad") line = "auth u x";
   else if (auth == "nosecret") line = "auth u";
-  else if (auth == "unknown") line = "auth v s";
+  else if (auth == "unknown") line = "auth z sE";
+  else if (auth == "prefix") line = "auth u s";
+  else if (auth == "ext") line = "auth u sEx";
+  else if (auth == "case") line = "auth u se";
+  else if (auth == "empty") line = "auth u \"\"";
+  else if (auth == "cross") line = "auth u t2";
+  else if (auth == "crossv") line = "auth v sE";
   if (line.empty()) return true;
   Reply r = tcp(c->w, line, user);
   if (log) *log += "  > " + line + "\n  < " + esc(r.text) + "   (session user now \"" + *user + "\")\n";
   return *user == (auth == "ok" ? "u" : "");
 }
-// names "<kind>NN" of circuit c listed by a `find` answer
-static set<string> namesInFind(const string& text) {
+// names listed for the circuit by a `find` answer
+static set<string> namesInFind(const string& text, const string& circ) {
   set<string> s;
   std::istringstream is(text);
-  string line;
-  while (getline(is, line)) if (line.compare(0, 2, "c ") == 0) { size_t e = line.find(' ', 2); s.insert(line.substr(2, e - 2)); }
+  string line, pre = circ + " ";
+  while (getline(is, line)) if (line.compare(0, pre.size(), pre) == 0) { size_t e = line.find(' ', pre.size()); s.insert(line.substr(pre.size(), e - pre.size())); }
   return s;
 }
-// message names appearing as JSON keys in a /data answer
-static set<string> namesInJson(const string& body, const Ctx* c) {
+// message names of the source appearing as JSON keys in a /data answer
+static set<string> namesInJson(const string& body, const vector<Tgt>& ts) {
   set<string> s;
-  for (char k : {'m', 'w', 'p'}) for (size_t i = 0; i < c->d.levels.size(); i++) {
-    string n = msgName(k, i);
-    if (body.find("\"" + n + "\"") != string::npos) s.insert(n);
-  }
+  for (auto& t : ts) for (const string* n : {&t.rname, &t.wname, &t.pname}) if (body.find("\"" + *n + "\"") != string::npos) s.insert(*n);
   return s;
 }
 static string join(const set<string>& s) { string o; for (auto& x : s) o += (o.empty() ? "" : " ") + x; return o.empty() ? "-" : o; }
 
 // the message is seen on the bus (telegram of another master, passive reception path of BusHandler):
-// afterwards it holds cached data with the value `cacheByte`
-static void busUpdate(Ctx* c, size_t mi, bool write) {
-  string ii = two(mi + 1);
+// afterwards it holds cached data with the value mi+101
+static void busUpdate(Ctx* c, const Tgt& t, char kind) {
   MasterSymbolString m;
   SlaveSymbolString s;
-  if (write) { m.parseHex("1008b509030e" + ii + two(mi + 101)); s.parseHex("00"); }
-  else { m.parseHex("1008b509020d" + ii); s.parseHex("01" + two(mi + 101)); }
+  if (kind == 'w') { m.parseHex(t.wTel(two(t.mi + 101), "10")); s.parseHex("00"); }
+  else if (kind == 'p') { m.parseHex(t.pTel("10")); s.parseHex("01" + two(t.mi + 101)); }
+  else { m.parseHex(t.rTel("10")); s.parseHex("01" + two(t.mi + 101)); }
   c->w->busHandler->notifyProtocolMessage(md_recv, m, s);
-  Message* msg = write ? c->wr[mi] : c->rd[mi];
-  if (msg->getLastUpdateTime() != g_now) { fprintf(stderr, "fixture: bus update did not reach message %zu\n", mi); exit(3); }
+  Message* msg = kind == 'w' ? t.wm : kind == 'p' ? t.pm : t.rm;
+  if (msg->getLastUpdateTime() != g_now) { fprintf(stderr, "fixture: bus update did not reach %s message %zu of source %s\n", kind == 'w' ? "write" : kind == 'p' ? "passive" : "read", t.mi, SOURCES[t.src].name); exit(3); }
 }
-struct FormReq { bool http = false; string line; };
+struct FormReq { bool http = false; char kind = 'r'; string line; string qq = "31"; bool opt = false; };
 // the request text of a form
-static FormReq requestOf(const string& form, size_t mi, const string& auth) {
+static FormReq requestOf(const string& form, const Tgt& t, const string& auth) {
   FormReq q;
-  string ii = two(mi + 1), m = msgName('m', mi), w = msgName('w', mi);
+  const string &m = t.rname, &w = t.wname, &p = t.pname, &C = t.circ;
+  string rh = "08b5" + t.sb + "020d" + t.ii(), wh = "08b5" + t.sb + "030e" + t.ii() + "07";
   if (form == "readname") q.line = "read " + m;
-  else if (form == "readcirc") q.line = "read -c c " + m;
-  else if (form == "readforce") q.line = "read -f -c c " + m;
+  else if (form == "readcirc") q.line = "read -c " + C + " " + m;
+  else if (form == "readforce") q.line = "read -f -c " + C + " " + m;
   else if (form == "readmaxage") q.line = "read -m 86400 " + m;
-  else if (form == "readhex") q.line = "read -h 08b509020d" + ii;
-  else if (form == "readhexforce") q.line = "read -f -h 08b509020d" + ii;
-  else if (form == "readpoll") q.line = "read -p 2 -c c " + m;
-  else if (form == "writecirc") q.line = "write -c c " + w + " 7";
-  else if (form == "writehex") q.line = "write -h 08b509030e" + ii + "07";
+  else if (form == "readhex") q.line = "read -h " + rh;
+  else if (form == "readhexforce") q.line = "read -f -h " + rh;
+  else if (form == "readpoll") q.line = "read -p 2 -c " + C + " " + m;
+  else if (form == "writecirc") { q.kind = 'w'; q.line = "write -c " + C + " " + w + " 7"; }
+  else if (form == "writehex") { q.kind = 'w'; q.line = "write -h " + wh; }
   else if (form == "findname") q.line = "find " + m;
   else if (form == "finddata") q.line = "find -d " + m;
   else if (form == "findhex") q.line = "find -d -h " + m;
-  else {
+  // ---- option crossings / passive by name (judged by the generic rules, see runCase)
+  else if (form == "readcirc_s") { q.opt = true; q.qq = "10"; q.line = "read -s 10 -c " + C + " " + m; }
+  else if (form == "readcirc_d") { q.opt = true; q.line = "read -d 08 -c " + C + " " + m; }
+  else if (form == "readcirc_v") { q.opt = true; q.line = "read -v -c " + C + " " + m; }
+  else if (form == "readcirc_n") { q.opt = true; q.line = "read -n -c " + C + " " + m; }
+  else if (form == "readcirc_field") { q.opt = true; q.line = "read -c " + C + " " + m + " v"; }
+  else if (form == "readname_s") { q.opt = true; q.qq = "10"; q.line = "read -s 10 " + m; }
+  else if (form == "readhex_s") { q.opt = true; q.qq = "10"; q.line = "read -s 10 -h " + rh; }
+  else if (form == "readhex_c") { q.opt = true; q.line = "read -c " + C + " -h " + rh; }
+  else if (form == "readhex_sc") { q.opt = true; q.qq = "10"; q.line = "read -s 10 -c " + C + " -h " + rh; }
+  else if (form == "writecirc_s") { q.opt = true; q.kind = 'w'; q.qq = "10"; q.line = "write -s 10 -c " + C + " " + w + " 7"; }
+  else if (form == "writecirc_d") { q.opt = true; q.kind = 'w'; q.line = "write -d 08 -c " + C + " " + w + " 7"; }
+  else if (form == "writehex_s") { q.opt = true; q.kind = 'w'; q.qq = "10"; q.line = "write -s 10 -h " + wh; }
+  else if (form == "writehex_c") { q.opt = true; q.kind = 'w'; q.line = "write -c " + C + " -h " + wh; }
+  else if (form == "writehex_sc") { q.opt = true; q.kind = 'w'; q.qq = "10"; q.line = "write -s 10 -c " + C + " -h " + wh; }
+  else if (form == "readpassive") { q.opt = true; q.kind = 'p'; q.line = "read " + p; }
+  else if (form == "readpassive_c") { q.opt = true; q.kind = 'p'; q.line = "read -c " + C + " " + p; }
+  else if (form == "readpassive_m") { q.opt = true; q.kind = 'p'; q.line = "read -m 86400 -c " + C + " " + p; }
+  else if (form.compare(0, 4, "http") == 0) {
     q.http = true;
     string aq = authQuery(auth);
     string opt = form == "httpname" ? "&required" : form == "httpmaxage" ? "&maxage=60" : form == "httppoll" ? "&poll=3" : "";
-    q.line = "/data/c/" + m + "?exact=1" + opt + (aq.empty() ? "" : "&" + aq);
+    if (form == "httppassive") { q.opt = true; q.kind = 'p'; }
+    else if (form != "httpname" && form != "httpcached" && form != "httpmaxage" && form != "httppoll") return q;
+    q.line = "/data/" + C + "/" + (q.kind == 'p' ? p : m) + "?exact=1" + opt + (aq.empty() ? "" : "&" + aq);
   }
   return q;
 }
 
 // one per-message case.  returns "" if fine, else the rule that fired; log gets the observation.
-static string runCase(Ctx* c, const Acl& a, const string& auth, size_t mi, const string& form, const string& hist, string* log) {
+static string runCase(Ctx* c, const Acl& a, const string& auth, const Tgt& t, const string& form, const string& hist, string* log) {
   applyAcl(c, a);
   resetState(c);
-  const string level = c->d.levels[mi];
-  FormReq q = requestOf(form, mi, auth);
+  const string& level = t.level;
+  size_t mi = t.mi;
+  FormReq q = requestOf(form, t, auth);
   if (q.line.empty()) return "unknown-form";
   bool http = q.http;
-  bool isWrite = form.compare(0, 5, "write") == 0;
+  bool isWrite = q.kind == 'w';
   string eff = auth == "ok" ? a.U : effDefault(a);
   bool granted = refGranted(level, eff);
   // HTTP with credentials that do not authenticate may be refused altogether (403) or fall back
   // to the default levels: both grant at most the default levels
   bool mayRefuse = http && auth != "none" && auth != "ok";
-  Message* rm = c->rd[mi];
-  Message* wm = c->wr[mi];
-  Message* tm = isWrite ? wm : rm;
-  string ii = two(mi + 1);
+  Message* rm = t.rm;
+  Message* tm = q.kind == 'w' ? t.wm : q.kind == 'p' ? t.pm : t.rm;
   string busValue = std::to_string(mi + 1), cacheValue = std::to_string(mi + 101);
-  string busHex = "01" + ii, cacheHex = "01" + two(mi + 101);
+  string busHex = "01" + t.ii(), cacheHex = "01" + two(mi + 101);
   string user;
   if (log) {
     *log += "default levels (" + a.dsrc + "): \"" + effDefault(a) + "\"; user u levels: \"" + a.U + "\"; auth=" + auth +
-            "; message level \"" + level + "\"; form=" + form + "; history=" + hist + "\n";
+            "; message level \"" + level + "\" assigned by " + SOURCES[t.src].name + "; form=" + form + "; history=" + hist + "\n";
     *log += string("reference: effective list \"") + eff + "\" -> " + (granted ? "GRANTED" : "DENIED") + "\n";
   }
   // ---- prior history on the same MainLoop -------------------------------------------------------------
   if (hist == "fresh" || hist == "stale") {
-    busUpdate(c, mi, isWrite);
+    busUpdate(c, t, q.kind);
     if (hist == "stale") g_now += 400;  // older than the default max age of 300 s
     if (log) *log += string("  history: message seen on the bus with value ") + cacheValue + (hist == "stale" ? ", 400 s ago\n" : ", just now\n");
   } else if (hist == "authread") {
     // another session that holds the level reads / writes the message; if no principal of this ACL holds
-    // the level, the data comes from the bus instead
+    // the level (or the message is passive), the data comes from the bus instead
     string other;
     bool viaU = refGranted(level, a.U), viaDefault = refGranted(level, effDefault(a));
-    if (viaU || viaDefault) {
-      if (viaU) tcp(c->w, "auth u s", &other);
-      Reply pr = tcp(c->w, isWrite ? "write -c c " + msgName('w', mi) + " 9" : "read -f -c c " + msgName('m', mi), &other);
+    if ((viaU || viaDefault) && q.kind != 'p') {
+      if (viaU) tcp(c->w, "auth u sE", &other);
+      Reply pr = tcp(c->w, isWrite ? "write -c " + t.circ + " " + t.wname + " 9" : "read -f -c " + t.circ + " " + t.rname, &other);
       if (pr.ret != RESULT_OK || tm->getLastUpdateTime() != g_now) return "history-authorised-access-failed";
       if (log) *log += "  history: session of " + string(viaU ? "user u" : "an anonymous client") + " (holds the level) accessed the message: " + esc(pr.text) + "\n";
     } else {
-      busUpdate(c, mi, isWrite);
+      busUpdate(c, t, q.kind);
       if (log) *log += "  history: no principal of this ACL holds the level; message seen on the bus with value " + cacheValue + "\n";
     }
   }
@@ -316,14 +456,34 @@ static string runCase(Ctx* c, const Acl& a, const string& auth, size_t mi, const
   string rule;
   Reply r = http ? httpGet(c->w, q.line) : tcp(c->w, q.line, &user);
   const vector<string>& sent = c->w->protocol->sent;
-  vector<string> wantSent = {isWrite ? "S:3108b509030e" + ii + "07" : "S:3108b509020d" + ii};
+  vector<string> wantSent = {"S:" + (isWrite ? t.wTel("07", q.qq) : t.rTel(q.qq))};
   bool sentOk = sent.empty() || sent == wantSent;
   bool stateTouched = tm->getLastUpdateTime() != lastUpBefore || hexOf(tm->getLastSlaveData()) != slaveBefore || hexOf(tm->getLastMasterData()) != masterBefore;
   bool pollTouched = rm->getPollPriority() != prioBefore || inPollQueue(c, rm) != queuedBefore;
   bool forced = form == "readforce" || form == "readhexforce";
   // a denied request that is answered although nothing went to the bus was answered from stored data
   auto deniedAnswered = [&]() { return string(sent.empty() && hadData ? "denied-answered-from-cache" : "denied-answered"); };
-  if (!http && form.compare(0, 4, "read") == 0) {
+  bool usage = !http && r.ret == RESULT_OK && r.text.compare(0, 6, "usage:") == 0;
+  if (q.opt && !http) {
+    // option crossings: the granted side is only judged where the request was answered (a usage text or an
+    // error other than not found / not authorized is not a matter of access levels)
+    bool hexForm = form.compare(0, 7, "readhex") == 0;
+    const string& vb = hexForm ? busHex : busValue;
+    const string& vc = hexForm ? cacheHex : cacheValue;
+    bool answered = r.ret == RESULT_OK && !usage && r.text.compare(0, 4, "ERR:") != 0;
+    if (granted) {
+      if (isDenied(r.ret)) rule = "granted-refused";
+      else if (!sentOk || (q.kind == 'p' && !sent.empty())) rule = "granted-wrong-telegram";
+      else if (answered && !isWrite && r.text.find(vb) == string::npos && r.text.find(vc) == string::npos) rule = "granted-wrong-value";
+      if (usage) R.count("opt_usage_answers");
+    } else {
+      if (answered || (r.ret != RESULT_OK && !isDenied(r.ret) && !sent.empty())) rule = deniedAnswered();
+      else if (!usage && r.ret == RESULT_OK && hadData && (r.text.find(vc) != string::npos)) rule = "denied-value-leaked";
+      else if (!sent.empty()) rule = "denied-bus-access";
+      else if (pollTouched) rule = "denied-poll-set";
+      else if (stateTouched) rule = "denied-state-changed";
+    }
+  } else if (!http && form.compare(0, 4, "read") == 0) {
     bool hex = form == "readhex" || form == "readhexforce";
     const string& vb = hex ? busHex : busValue;
     const string& vc = hex ? cacheHex : cacheValue;
@@ -349,7 +509,7 @@ static string runCase(Ctx* c, const Acl& a, const string& auth, size_t mi, const
       else if (stateTouched) rule = "denied-state-changed";
     }
   } else if (!http) {  // find forms
-    bool listed = namesInFind(r.text).count(msgName('m', mi)) > 0;
+    bool listed = namesInFind(r.text, t.circ).count(t.rname) > 0;
     bool needData = form != "findname";
     if (granted) {
       if ((!needData || hadData) && !listed) rule = "granted-refused";
@@ -364,12 +524,13 @@ static string runCase(Ctx* c, const Acl& a, const string& auth, size_t mi, const
   } else {
     int st = httpStatus(r.text);
     string body = httpBody(r.text);
-    bool listed = body.find("\"" + msgName('m', mi) + "\"") != string::npos;
+    const string& nm = q.kind == 'p' ? t.pname : t.rname;
+    bool listed = body.find("\"" + nm + "\"") != string::npos;
     bool refused = st == 403 || st == 401;
     bool valueShown = body.find("\"value\": " + busValue + "}") != string::npos || body.find("\"value\": " + cacheValue + "}") != string::npos;
     if (granted && !(mayRefuse && refused)) {
       if (st != 200 || !listed) rule = "granted-refused";
-      else if (!sentOk) rule = "granted-wrong-telegram";
+      else if (!sentOk || (q.kind == 'p' && !sent.empty())) rule = "granted-wrong-telegram";
       else if (form == "httpname" && !hadData && (sent != wantSent || !valueShown)) rule = "granted-wrong-telegram";
       else if (form == "httpmaxage" && (!hadData || hist == "stale") && (sent != wantSent || !valueShown)) rule = "granted-wrong-telegram";
       else if (hadData && !valueShown) rule = "granted-wrong-value";
@@ -395,21 +556,64 @@ static string runCase(Ctx* c, const Acl& a, const string& auth, size_t mi, const
   return rule;
 }
 
-// one listing / sink case
-static string runSetCase(Ctx* c, const Acl& a, const string& auth, const string& form, const string& hist, string* log) {
+// two conditional variants of one name: [on] carries level L[i], [off] level L[i+1].  The selector was seen on
+// the bus with value sel, so exactly one variant is available; only its level counts.
+static string runDupCase(Ctx* c, const Acl& a, const string& auth, size_t i, int sel, const string& form, string* log) {
   applyAcl(c, a);
   resetState(c);
+  size_t n = c->d.levels.size();
+  const string& level = sel ? c->d.levels[i] : c->d.levels[(i + 1) % n];
+  Message* avail = sel ? c->dupOn[i] : c->dupOff[i];
+  string eff = auth == "ok" ? a.U : effDefault(a);
+  bool granted = refGranted(level, eff);
+  { MasterSymbolString m; SlaveSymbolString s; m.parseHex("1008b509020d70"); s.parseHex(sel ? "0101" : "0100"); c->w->busHandler->notifyProtocolMessage(md_recv, m, s); }
+  if (!avail->isAvailable() || (sel ? c->dupOff[i] : c->dupOn[i])->isAvailable()) return "fixture-condition";
+  string name = "d" + num2(i), user;
+  bool http = form == "httpname";
+  if (log) *log += "default levels (" + a.dsrc + "): \"" + effDefault(a) + "\"; user u levels: \"" + a.U + "\"; auth=" + auth + "; name " + name +
+                   " has variant [on] level \"" + c->d.levels[i] + "\" and [off] level \"" + c->d.levels[(i + 1) % n] + "\"; selector seen with " +
+                   std::to_string(sel) + " -> available variant carries \"" + level + "\" -> " + (granted ? "GRANTED" : "DENIED") + "\n";
+  if (!http && !tcpAuth(c, auth, &user, log)) return "auth-user";
+  c->w->protocol->sent.clear();
+  string aq = authQuery(auth);
+  string line = http ? "/data/c/" + name + "?exact=1&required" + (aq.empty() ? "" : "&" + aq) : "read -f -c c " + name;
+  Reply r = http ? httpGet(c->w, line) : tcp(c->w, line, &user);
+  const vector<string>& sent = c->w->protocol->sent;
+  vector<string> wantSent = {"S:3108b50902" + string(sel ? "10" : "11") + two(i + 1)};
+  string rule;
+  bool mayRefuse = http && auth != "none" && auth != "ok";
+  if (http) {
+    int st = httpStatus(r.text);
+    bool listed = httpBody(r.text).find("\"" + name + "\"") != string::npos;
+    if (granted && !(mayRefuse && (st == 403 || st == 401))) { if (st != 200 || !listed || sent != wantSent) rule = "granted-refused"; }
+    else if (listed) rule = "denied-answered"; else if (!sent.empty()) rule = "denied-bus-access";
+    if (log) *log += "  > GET " + line + "\n  < status " + std::to_string(st) + (listed ? ", listed" : ", not listed") + "\n";
+  } else {
+    if (granted) { if (r.ret != RESULT_OK || sent != wantSent) rule = "granted-refused"; }
+    else if (!isDenied(r.ret)) rule = "denied-answered"; else if (!sent.empty()) rule = "denied-bus-access";
+    if (log) *log += "  > " + line + "\n  < " + getResultCode(r.ret) + " / " + esc(r.text.substr(0, 80)) + "\n";
+  }
+  if (log) { *log += "  telegrams to the bus: "; for (auto& x : sent) *log += x + " "; *log += sent.empty() ? "none\n" : "\n"; }
+  return rule;
+}
+
+// one listing / sink case (for the messages of one level source)
+static string runSetCase(Ctx* c, const Acl& a, const string& auth, size_t src, const string& form, const string& hist, string* log) {
+  applyAcl(c, a);
+  resetState(c);
+  const vector<Tgt>& ts = c->tg[src];
+  const string circ = SOURCES[src].circ;
   bool withData = hist == "fresh";
-  if (withData) for (size_t i = 0; i < c->d.levels.size(); i++) { busUpdate(c, i, false); busUpdate(c, i, true); }
+  if (withData) for (auto& t : ts) { busUpdate(c, t, 'r'); busUpdate(c, t, 'w'); }
   string eff = auth == "ok" ? a.U : effDefault(a);
   bool http = form.compare(0, 4, "http") == 0;
   bool mayRefuse = http && auth != "none" && auth != "ok";
   string user;
-  if (log) *log += "default levels (" + a.dsrc + "): \"" + effDefault(a) + "\"; user u levels: \"" + a.U + "\"; auth=" + auth + "; form=" + form + "; history=" + hist + (withData ? " (every read and write message was just seen on the bus)" : "") + "\n";
+  if (log) *log += "default levels (" + a.dsrc + "): \"" + effDefault(a) + "\"; user u levels: \"" + a.U + "\"; auth=" + auth + "; level source " + SOURCES[src].name +
+                   "; form=" + form + "; history=" + hist + (withData ? " (every read and write message was just seen on the bus)" : "") + "\n";
   set<string> want, got;
   string leak;
   string rule;
-  size_t n = c->d.levels.size();
   if (form == "sink") {
     // a data sink configured for user "u" (exists) resp. "nobody" (falls back to the default entry)
     class Sink : public DataSink {
@@ -419,39 +623,33 @@ static string runSetCase(Ctx* c, const Acl& a, const string& auth, const string&
     };
     string sinkUser = auth == "ok" ? "u" : "nobody";
     Sink sink(&c->w->loop->m_userList, sinkUser);
-    for (size_t i = 0; i < n; i++) for (auto* v : {&c->rd, &c->wr, &c->pv}) {
-      Message* m = (*v)[i];
+    for (auto& t : ts) for (Message* m : {t.rm, t.wm, t.pm}) {
       sink.notifyUpdate(m, true);
-      if (refGranted(c->d.levels[i], eff)) want.insert(m->getName());
+      if (refGranted(t.level, eff)) want.insert(m->getName());
     }
-    for (size_t i = 0; i < n; i++) for (auto* v : {&c->rd, &c->wr, &c->pv}) {
-      Message* m = (*v)[i];
-      if (sink.m_updatedMessages.count(m->getKey())) got.insert(m->getName());
-    }
+    for (auto& t : ts) for (Message* m : {t.rm, t.wm, t.pm}) if (sink.m_updatedMessages.count(m->getKey())) got.insert(m->getName());
     if (log) *log += "  sink for user \"" + sinkUser + "\" got levels \"" + sink.m_levels + "\"\n";
   } else if (form == "findall" || form == "findw" || form == "finddata") {
     if (!tcpAuth(c, auth, &user, log)) return "auth-user";
-    Reply r = tcp(c->w, form == "findall" ? "find -c c" : form == "findw" ? "find -w -c c" : "find -a -d -c c", &user);
-    got = namesInFind(r.text);
-    for (size_t i = 0; i < n; i++) {
-      bool g = refGranted(c->d.levels[i], eff);
+    Reply r = tcp(c->w, string(form == "findall" ? "find -e -c " : form == "findw" ? "find -w -e -c " : "find -a -d -e -c ") + circ, &user);
+    got = namesInFind(r.text, circ);
+    if (src == 0) { for (auto it = got.begin(); it != got.end();) { if (*it == "sel" || (*it)[0] == 'd') it = got.erase(it); else ++it; } }
+    for (auto& t : ts) {
+      bool g = refGranted(t.level, eff);
       if (g) {
-        if (form == "findall") { want.insert(msgName('m', i)); want.insert(msgName('p', i)); }
-        else if (form == "findw") want.insert(msgName('w', i));
-        else if (withData) { want.insert(msgName('m', i)); want.insert(msgName('w', i)); }
-      } else if (withData && r.text.find("= " + std::to_string(i + 101)) != string::npos) {
-        leak = msgName('m', i);
+        if (form == "findall") { want.insert(t.rname); want.insert(t.pname); }
+        else if (form == "findw") want.insert(t.wname);
+        else if (withData) { want.insert(t.rname); want.insert(t.wname); }
+      } else if (withData && r.text.find(" " + t.rname + " = " + std::to_string(t.mi + 101)) != string::npos) {
+        leak = t.rname;
       }
     }
   } else if (form == "httpall") {
     string q = authQuery(auth);
-    Reply r = httpGet(c->w, "/data/c?write=1" + (q.empty() ? "" : "&" + q));
+    Reply r = httpGet(c->w, "/data/" + circ + "?exact=1&write=1" + (q.empty() ? "" : "&" + q));
     int st = httpStatus(r.text);
-    got = namesInJson(httpBody(r.text), c);
-    for (size_t i = 0; i < n; i++) {
-      if (refGranted(c->d.levels[i], eff)) { want.insert(msgName('m', i)); want.insert(msgName('w', i)); want.insert(msgName('p', i)); }
-      else if (withData && httpBody(r.text).find("\"value\": " + std::to_string(i + 101) + "}") != string::npos) leak = msgName('m', i);
-    }
+    got = namesInJson(httpBody(r.text), ts);
+    for (auto& t : ts) if (refGranted(t.level, eff)) { want.insert(t.rname); want.insert(t.wname); want.insert(t.pname); }
     if (log) *log += "  status " + std::to_string(st) + "\n";
     if (mayRefuse && (st == 403 || st == 401) && got.empty()) want.clear();
   }
@@ -472,6 +670,10 @@ static string levelClass(const string& level, const string& list) {
   if (list == "*") return "star";
   if (list.empty()) return "emptylist";
   if (list.find(level) != string::npos) return refGranted(level, list) ? "member" : "substring-only";
+  string ll = level, li = list;
+  std::transform(ll.begin(), ll.end(), ll.begin(), ::tolower);
+  std::transform(li.begin(), li.end(), li.begin(), ::tolower);
+  if (refGranted(ll, li)) return "case-variant-only";
   return "absent";
 }
 
@@ -487,16 +689,19 @@ static int replay(const string& cs) {
   } else {
     Ctx* c = makeCtx(m["set"]);
     Acl a{m["dsrc"], withSep(m["D"], ',', ';'), withSep(m["U"], ',', ';')};
+    size_t mi = strtoul(m["mi"].c_str(), nullptr, 10), src = m.count("src") ? strtoul(m["src"].c_str(), nullptr, 10) : 0;
+    string hist = m.count("hist") ? m["hist"] : "none";
     if (k == "hl") {
-      size_t mi = strtoul(m["mi"].c_str(), nullptr, 10);
       string list = withSep(m["list"], ',', ';');
-      bool impl = c->rd[mi]->hasLevel(list), ref = refGranted(c->d.levels[mi], list);
+      bool impl = c->tg[0][mi].rm->hasLevel(list), ref = refGranted(c->d.levels[mi], list);
       printf("Message(level=\"%s\").hasLevel(\"%s\") impl=%d reference=%d\n", c->d.levels[mi].c_str(), list.c_str(), impl, ref);
       rule = impl == ref ? "" : "hasLevel";
     } else if (k == "e2e") {
-      rule = runCase(c, a, m["auth"], strtoul(m["mi"].c_str(), nullptr, 10), m["form"], m.count("hist") ? m["hist"] : "none", &log);
+      rule = runCase(c, a, m["auth"], c->tg[src][mi], m["form"], hist, &log);
+    } else if (k == "dup") {
+      rule = runDupCase(c, a, m["auth"], mi, atoi(m["sel"].c_str()), m["form"], &log);
     } else if (k == "set") {
-      rule = runSetCase(c, a, m["auth"], m["form"], m.count("hist") ? m["hist"] : "none", &log);
+      rule = runSetCase(c, a, m["auth"], src, m["form"], hist, &log);
     }
     fputs(log.c_str(), stdout);
     rmTree(c->w->tmp);
@@ -531,7 +736,7 @@ int main(int argc, char** argv) {
                     "Message::checkLevel(\"" + level + "\", \"" + list + "\") returned " + (ref ? "false" : "true"),
                     "k=cl;lvl=" + level + ";list=" + withSep(list, ';', ','));
       }
-      if (c->rd[i]->hasLevel(list) != ref) {
+      if (c->tg[0][i].rm->hasLevel(list) != ref) {
         R.violation("C16/hasLevel/" + string(ref ? "granted-refused" : "denied-granted") + "/" + levelClass(level, list),
                     "Message(level \"" + level + "\").hasLevel(\"" + list + "\") returned " + (ref ? "false" : "true"),
                     "k=hl;set=" + set + ";mi=" + std::to_string(i) + ";list=" + withSep(list, ';', ','));
@@ -540,69 +745,102 @@ int main(int argc, char** argv) {
     if (R.expired()) break;
   }
   R.sample("checkLevel/hasLevel on all " + std::to_string(lists.size()) + " granted lists (<=3 names, empty, \"*\") x " +
-           std::to_string(d.levels.size()) + " levels, e.g. level \"ab\" vs \"a;b;aab\" -> denied, vs \"b;ab\" -> granted");
+           std::to_string(d.levels.size()) + " levels, e.g. level \"ab\" vs \"a;b;aab\" -> denied, vs \"b;ab\" -> granted, level \"a\" vs \"A;aA\" -> denied");
 
   // ---- B: end to end ------------------------------------------------------------------------
-  vector<string> l2 = listsOf(d.e2eNames, 2, ';');
-  vector<string> l3 = listsOf(d.e2eNames, 3, ';');
-  vector<Acl> acls;
-  vector<string> l1 = listsOf(d.e2eNames, 1, ';');
-  // thorough (12 names): the two lists together hold at most 3 names
   auto nNames = [](const string& l) { return l.empty() || l == "*" ? size_t(0) : size_t(std::count(l.begin(), l.end(), ';')) + 1; };
-  for (auto& D : l2) for (auto& U : l2) if (set != "t" || nNames(D) + nNames(U) <= 3) acls.push_back(Acl{"acl", D, U});
-  // default list given by --accesslevel: quick crosses it with all user lists, thorough (12 names) with the
-  // user lists of <=1 name only (the option is just another source of the same default entry)
-  for (auto& D : l2) for (auto& U : (set == "t" ? l1 : l2)) acls.push_back(Acl{"opt", D, U});
-  for (auto& U : l3) acls.push_back(Acl{"none", "", U});
+  vector<string> l1 = listsOf(d.e2eNames, 1, ';'), l2 = listsOf(d.e2eNames, 2, ';'), l3 = listsOf(d.e2eNames, 3, ';');
+  vector<string> b2 = listsOf(d.baseNames, 2, ';');
+  vector<Acl> acls;
+  std::set<string> seenAcl;
+  auto addAcl = [&](const Acl& a) { if (seenAcl.insert(caseOfAcl(a)).second) acls.push_back(a); };
+  // quick: the lower case lists of <=2 names fully crossed; with the case variants (and in thorough) the two
+  // lists together hold at most 3 names; --accesslevel: user lists of <=1 name (the option is just another source
+  // of the same default entry; its full crossing with the lower case user lists is left to the ACL '*' row)
+  if (set != "t") for (auto& D : b2) for (auto& U : b2) addAcl(Acl{"acl", D, U});
+  for (auto& D : l2) for (auto& U : l2) if (nNames(D) + nNames(U) <= 3) addAcl(Acl{"acl", D, U});
+  for (auto& D : l2) for (auto& U : l1) addAcl(Acl{"opt", D, U});
+  for (auto& U : l3) addAcl(Acl{"none", "", U});
   uint64_t nAcl = 0;
   bool sampled = false;
+  auto report = [&](const string& rule, const string& form, const string& cls, const string& detail, const string& cs) {
+    R.violation("C16/" + rule + "/" + form + "/" + cls, detail, cs);
+  };
   for (size_t ai = 0; ai < acls.size() && !R.expired(); ai++) {
     if (static_cast<int>(ai % A.nparts) != A.part) continue;
     const Acl& a = acls[ai];
     nAcl++;
     R.state("acl|" + caseOfAcl(a));
+    auto one = [&](const char* auth, size_t src, size_t mi, const char* form, const char* hist) {
+      const Tgt& t = c->tg[src][mi];
+      string rule = runCase(c, a, auth, t, form, hist, nullptr);
+      R.evaluations++; R.tracesValidated++; R.transitions += 3;
+      string eff = string(auth) == "ok" ? a.U : effDefault(a);
+      R.distinct(string("e2e|") + form + "|" + hist + "|" + auth + "|" + t.level + "|" + eff + "|" + a.dsrc + "|" + std::to_string(src));
+      R.count(refGranted(t.level, eff) ? "e2e_granted" : "e2e_denied");
+      if (!rule.empty()) {
+        string cs = "k=e2e;set=" + set + ";" + caseOfAcl(a) + ";auth=" + auth + ";src=" + std::to_string(src) + ";mi=" + std::to_string(mi) + ";form=" + form + ";hist=" + hist;
+        string f = string(form) + (src ? string("@") + SOURCES[src].name : "");
+        report(rule, f, levelClass(t.level, eff), "level \"" + t.level + "\" (" + SOURCES[src].name + ") vs effective list \"" + eff + "\" (" + auth + "), form " + form + ", history " + hist, cs);
+      }
+    };
+    auto oneSet = [&](const char* auth, size_t src, const char* form, const char* hist) {
+      string rule = runSetCase(c, a, auth, src, form, hist, nullptr);
+      R.evaluations++; R.tracesValidated++; R.transitions++;
+      if (!rule.empty()) {
+        string cs = "k=set;set=" + set + ";" + caseOfAcl(a) + ";auth=" + auth + ";src=" + std::to_string(src) + ";form=" + form + ";hist=" + hist;
+        string f = string(form) + (src ? string("@") + SOURCES[src].name : "");
+        report(rule, f, "listing", "listing differs from the granted set, form " + string(form) + ", auth " + auth + ", history " + hist + ", source " + SOURCES[src].name, cs);
+      }
+    };
     for (const char* auth : AUTHS) {
       for (size_t mi = 0; mi < d.levels.size(); mi++) {
-        for (const char* form : FORMS) for (const char* hist : HISTS) {
-          string rule = runCase(c, a, auth, mi, form, hist, nullptr);
-          R.evaluations++; R.tracesValidated++; R.transitions += 3;
-          string eff = string(auth) == "ok" ? a.U : effDefault(a);
-          R.distinct(string("e2e|") + form + "|" + hist + "|" + auth + "|" + d.levels[mi] + "|" + eff + "|" + a.dsrc);
-          R.count(refGranted(d.levels[mi], eff) ? "e2e_granted" : "e2e_denied");
-          if (!rule.empty()) {
-            string cs = "k=e2e;set=" + set + ";" + caseOfAcl(a) + ";auth=" + auth + ";mi=" + std::to_string(mi) + ";form=" + form + ";hist=" + hist;
-            R.violation("C16/" + rule + "/" + form + "/" + levelClass(d.levels[mi], eff),
-                        "level \"" + d.levels[mi] + "\" vs effective list \"" + eff + "\" (" + auth + "), form " + form + ", history " + hist, cs);
-          }
-        }
+        // quick: the three failing authentications (same effective list as "none") get 2 of the 5 histories
+        bool allHist = set == "t" || !strcmp(auth, "none") || !strcmp(auth, "ok");
+        for (const char* form : FORMS) for (const char* hist : HISTS) if (allHist || !strcmp(hist, "none") || !strcmp(hist, "fresh")) one(auth, 0, mi, form, hist);
+        if (set == "t" || !strcmp(auth, "none") || !strcmp(auth, "ok")) for (const char* form : OPTFORMS) for (const char* hist : HISTS2) one(auth, 0, mi, form, hist);
       }
-      for (const char* form : SETFORMS) for (const char* hist : SETHISTS) {
-        string rule = runSetCase(c, a, auth, form, hist, nullptr);
-        R.evaluations++; R.tracesValidated++; R.transitions++;
+      for (const char* form : SETFORMS) for (const char* hist : SETHISTS) oneSet(auth, 0, form, hist);
+    }
+    // the other level sources, the related wrong secrets and the conditional variants: reduced form sets
+    for (const char* auth : {"none", "ok"}) {
+      for (size_t src = 1; src < NSRC; src++) {
+        for (size_t mi = 0; mi < d.levels.size(); mi++) for (const char* form : SRCFORMS) for (const char* hist : HISTS2) one(auth, src, mi, form, hist);
+        for (const char* form : {"findall", "finddata", "httpall", "sink"}) oneSet(auth, src, form, "fresh");
+      }
+      for (size_t mi = 0; mi < d.levels.size(); mi++) for (int sel = 0; sel < 2; sel++) for (const char* form : {"readforce", "httpname"}) {
+        string rule = runDupCase(c, a, auth, mi, sel, form, nullptr);
+        R.evaluations++; R.tracesValidated++; R.transitions += 3;
         if (!rule.empty()) {
-          string cs = "k=set;set=" + set + ";" + caseOfAcl(a) + ";auth=" + auth + ";form=" + form + ";hist=" + hist;
-          R.violation("C16/" + rule + "/" + form + "/listing", "listing differs from the granted set, form " + string(form) + ", auth " + auth + ", history " + hist, cs);
+          size_t n = d.levels.size();
+          string eff = string(auth) == "ok" ? a.U : effDefault(a);
+          const string& lv = sel ? d.levels[mi] : d.levels[(mi + 1) % n];
+          report(rule, string(form) + "@conditional-variant", levelClass(lv, eff), "conditional variants of d" + num2(mi) + ", selector " + std::to_string(sel) + ", auth " + auth,
+                 "k=dup;set=" + set + ";" + caseOfAcl(a) + ";auth=" + auth + ";mi=" + std::to_string(mi) + ";sel=" + std::to_string(sel) + ";form=" + form);
         }
       }
+    }
+    for (const char* auth : AUTHS2) {
+      for (size_t mi = 0; mi < d.levels.size(); mi++) for (const char* form : AUTH2FORMS) for (const char* hist : HISTS2) one(auth, 0, mi, form, hist);
+      for (const char* form : {"findall", "httpall"}) oneSet(auth, 0, form, "fresh");
     }
     if (!sampled && a.dsrc == "acl" && a.D == "a" && a.U == "ab;b") {
       sampled = true;
       string log;
-      runCase(c, a, "ok", std::min<size_t>(4, d.levels.size() - 1), "readname", "none", &log);
+      runCase(c, a, "ok", c->tg[0][std::min<size_t>(4, d.levels.size() - 1)], "readname", "none", &log);
       R.sample("e2e: " + log);
       log.clear();
-      runCase(c, a, "none", std::min<size_t>(4, d.levels.size() - 1), "readhex", "fresh", &log);
+      runCase(c, a, "none", c->tg[2][std::min<size_t>(4, d.levels.size() - 1)], "readhex", "fresh", &log);
       R.sample("e2e: " + log);
       log.clear();
-      runSetCase(c, a, "bad", "findall", "none", &log);
+      runSetCase(c, a, "bad", 0, "findall", "none", &log);
       R.sample("e2e: " + log);
     }
   }
   R.count("acls", nAcl);
-  R.note("ACL space: " + std::to_string(acls.size()) + " ACLs = default entry from the ACL '*' row x user entry (lists of <=2 names, " +
-         std::to_string(l2.size()) + " each), default entry from --accesslevel x user entry (" + std::to_string(set == "t" ? l1.size() : l2.size()) +
-         " user lists), no default entry x user lists of <=3 names (" + std::to_string(l3.size()) + "); x 5 auth states x " +
-         std::to_string(d.levels.size()) + " levels x 16 forms x 5 histories + 5 listing forms x 2 histories");
+  R.note("ACL space: " + std::to_string(acls.size()) + " ACLs (default entry from the ACL '*' row / --accesslevel / none x user entry); per ACL: 5 auth states x " +
+         std::to_string(d.levels.size()) + " levels x (16 forms x 5 histories + 18 option/passive forms x 2 histories) + listings; 5 further level sources x 2 auth x " +
+         "7 forms x 2 histories; conditional variants x 2 selector states; 6 related wrong secrets x 4 forms x 2 histories");
   rmTree(c->w->tmp);
   R.write(A.out);
   return 0;
